@@ -293,6 +293,11 @@ def bounded_documents(ctx, b):
     for rep in range(n):
         for k in (1, 3):
             sp = cues(k)
+            if k == 3 and rep % 3 == 1:
+                # cues that overlap (the next one starts while the previous is still shown) or share a start: legal
+                # WebVTT, which only asks for non-decreasing start times - also for a reader told to check timings
+                a, b_, c_ = sp
+                sp = [(a[0], c_[0] + 1000), (b_[0], b_[1]), (b_[0], c_[1])]
             shift = rng.choice([0, 0, 1154, -1154, 3600000])
             if shift < 0 and sp[0][0] < 2000000:
                 shift = 0           # a shifted start below zero is (rightly) a timing error
@@ -356,9 +361,13 @@ def bounded_documents(ctx, b):
         if rep % 5 == 2 and len(ps) == 3 and all(x.endswith("</p>") for x in ps):
             # the body divided into several divs of the one language (scenes / chapters), a div of another language
             # between them, or the last division nested in the first: every cue once (document order for sibling divs)
-            how = ["siblings", "other_language_between", "nested"][(rep // 5) % 3]
+            how = ["siblings", "other_language_between", "nested", "siblings_in_different_regions"][(rep // 5) % 4]
             if how == "siblings":
                 doc = tmpl % (ps[0] + "</div><div>" + ps[1] + "</div><div>" + ps[2])
+            elif how == "siblings_in_different_regions":
+                doc = (tmpl % (ps[0] + '</div><div region="top">' + ps[1] + '</div><div region="low">' + ps[2])).replace(
+                    "<body>", '<head><layout xmlns:tts="http://www.w3.org/ns/ttml#styling"><region xml:id="top" tts:origin="10% 10%" tts:extent="80% 20%"/>'
+                    '<region xml:id="low" tts:origin="10% 70%" tts:extent="80% 20%"/></layout></head><body>')
             elif how == "other_language_between":
                 doc = tmpl % (ps[0] + ps[1] + '</div><div xml:lang="fr"><p begin="1s" end="2s">fr</p></div><div>' + ps[2])
             else:
@@ -431,6 +440,8 @@ def bounded_documents(ctx, b):
         k = rng.choice([1, 3])
         frames = sorted(rng.sample(range(0, 3 * 10 ** 6), 2 * k)) if rep % 2 else \
             sorted(rng.sample([201, 203, 205, 402, 803, 1, 2, 3, 25, 100, 2997, 5994], 2 * k))
+        if rep % 4 == 1:
+            frames[0] = 0            # (a cue may start at frame 0; only {0}{0} declares the frame rate)
         lines = ([f"{{0}}{{0}}{fps}"] if fps else []) + \
                 [f"{{{frames[2 * i]}}}{{{frames[2 * i + 1]}}}text {i}|second" for i in range(k)]
         doc = "\n".join(lines).replace("\n", rng.choice(["\n", "\n", "\r\n", "\r"]))
